@@ -188,25 +188,31 @@ func fixStdlib(interp *Interpreter) {
 	}
 
 	if p = interp.binPkg["log"]; p != nil {
-		l := log.New(stderr, "", log.LstdFlags)
-		// Restrict Fatal symbols to panic instead of exit.
-		p["Fatal"] = reflect.ValueOf(l.Panic)
-		p["Fatalf"] = reflect.ValueOf(l.Panicf)
-		p["Fatalln"] = reflect.ValueOf(l.Panicln)
+		// The standard logger of the interpreter writes to its stderr. It is built by the New
+		// of the symbol table, so that Default returns it as the Logger type of the table.
+		l := reflect.ValueOf(log.New(stderr, "", log.LstdFlags))
+		if n := p["New"]; n.IsValid() {
+			l = n.Call([]reflect.Value{reflect.ValueOf(&stderr).Elem(), reflect.ValueOf(""), reflect.ValueOf(log.LstdFlags)})[0]
+		}
+		p["Default"] = reflect.MakeFunc(reflect.FuncOf(nil, []reflect.Type{l.Type()}, false),
+			func([]reflect.Value) []reflect.Value { return []reflect.Value{l} })
+		bind := func(name, method string) {
+			if m := l.MethodByName(method); m.IsValid() {
+				p[name] = reflect.ValueOf(m.Interface())
+			}
+		}
 
-		p["Flags"] = reflect.ValueOf(l.Flags)
-		p["Output"] = reflect.ValueOf(l.Output)
-		p["Panic"] = reflect.ValueOf(l.Panic)
-		p["Panicf"] = reflect.ValueOf(l.Panicf)
-		p["Panicln"] = reflect.ValueOf(l.Panicln)
-		p["Prefix"] = reflect.ValueOf(l.Prefix)
-		p["Print"] = reflect.ValueOf(l.Print)
-		p["Printf"] = reflect.ValueOf(l.Printf)
-		p["Println"] = reflect.ValueOf(l.Println)
-		p["SetFlags"] = reflect.ValueOf(l.SetFlags)
-		p["SetOutput"] = reflect.ValueOf(l.SetOutput)
-		p["SetPrefix"] = reflect.ValueOf(l.SetPrefix)
-		p["Writer"] = reflect.ValueOf(l.Writer)
+		// Restrict Fatal symbols to panic instead of exit.
+		bind("Fatal", "Panic")
+		bind("Fatalf", "Panicf")
+		bind("Fatalln", "Panicln")
+
+		for _, name := range []string{
+			"Flags", "Output", "Panic", "Panicf", "Panicln", "Prefix", "Print", "Printf", "Println",
+			"SetFlags", "SetOutput", "SetPrefix", "Writer",
+		} {
+			bind(name, name)
+		}
 
 		// Update mapTypes to virtualized symbols as well.
 		interp.mapTypes[p["Print"]] = interp.mapTypes[reflect.ValueOf(log.Print)]
